@@ -223,7 +223,10 @@ ASSUMPTIONS = [
 LEVEL_TEXT = (
     "Lean theorems for all class universes / instances of the typed fragment valOKj (str/int/bool, model-class, list and wrapped-list "
     "fields, both dictionary factories, every parser config): dict_rt, list_rt, json_rt, encode_json_native, best_match_unique; "
-    "the full-strength statement is refuted by five witnesses on real exported contexts (known findings), all replayed on /repo; "
+    "the full-strength statement is still refuted by two witnesses on real exported contexts that are inherent in the untagged JSON shape "
+    "(subclass ambiguity, model instance under a wildcard; known findings, replayed on /repo); the former counterexamples for FILTER_NONE "
+    "generic elements, wrapped lists in candidate pools and compound str/int are now positive theorems (filter_none_any_roundtrip, "
+    "wrapper_best_roundtrip, compound_exact_type_first) after the repairs; "
     "model tied to /repo by dict.enc / dict.dec / dict.roundtrip on generated universes incl. wildcard, compound, attributes, tokens, "
     "wrapper, inheritance, unknown keys and wrong shapes."
 )
